@@ -605,5 +605,54 @@ seed("c04-lmtp-false-not-closed", "C04", "R-drain-failure-closes", "conn.go",
 		c.Close()
 	}""", """	<-done""", "handler ignores the delivery's failure report")
 
+seed("c14-auth-null-identity", "C14", "R-field-key", "client.go",
+"""			if *opts.Auth == "" {
+				// An empty identity is written as "<>" (RFC 4954 section 5).
+				sb.WriteString(" AUTH=<>")
+			} else {
+				fmt.Fprintf(&sb, " AUTH=%s", encodeXtext(*opts.Auth))
+			}""", """			fmt.Fprintf(&sb, " AUTH=%s", encodeXtext(*opts.Auth))""", "empty identity sent as a bare AUTH=")
+seed("c11-empty-local-part", "C11", "R-grammar-guards", "parse.go",
+"""	} else if localPart == "" {
+		return "", fmt.Errorf("local-part is empty")
+	}""", """	}""", "empty local part accepted")
+seed("c11-empty-domain", "C11", "R-grammar-guards", "parse.go",
+"""	if strings.HasSuffix(sb.String(), "@") {
+		return "", fmt.Errorf("domain is empty")
+	}
+""", "", "empty domain accepted")
+seed("c11-bracket-unchecked", "C11", "R-grammar-guards", "parse.go",
+"""	if hasBracket {
+		if err := p.expectByte('>'); err != nil {
+			return "", err
+		}
+	}
+	return mbox, nil""", """	if hasBracket {
+		p.acceptByte('>')
+	}
+	return mbox, nil""", "'<' without '>' accepted")
+seed("c11-xtext-incomplete", "C11", "R-grammar-guards", "conn.go",
+"""		if len(match) != 3 {""", """		if len(match) < 2 {""", "+A accepted as a hexchar")
+seed("c11-surrogates", "C11", "R-grammar-guards", "conn.go",
+"""			case 0x1000 <= char && char <= 0xD7FF:
+			case 0xE000 <= char && char <= 0xFFFF:""", """			case 0x1000 <= char && char <= 0xFFFF:""", "surrogate code points accepted")
+seed("c11-never-combined", "C11", "R-grammar-guards", "conn.go",
+"""	if _, ok := seen[DSNNotifyNever]; ok && len(seen) > 1 {
+		return errors.New("Malformed NOTIFY parameter value")
+	}
+""", "", "NOTIFY=NEVER,SUCCESS accepted")
+seed("c11-auth-empty", "C11", "R-grammar-guards", "conn.go",
+"""			if err != nil || value == "" {
+				c.writeResponse(500, EnhancedCode{5, 5, 4}, "Malformed AUTH parameter value")""", """			if err != nil {
+				c.writeResponse(500, EnhancedCode{5, 5, 4}, "Malformed AUTH parameter value")""", "bare AUTH= accepted")
+seed("c11-dotstring-space", "C11", "R-grammar-guards", "parse.go",
+"""'\\\\', ',', '"', ' ', '\\t':""", """'\\\\', ',', '"', '\\t':""", "space inside a dot-string accepted")
+seed("c14-auth-pointer-shared", "C14", "R-opts-pointer-fresh", "conn.go",
+"""			value, err := decodeXtext(value)
+			if err != nil || value == "" {
+				c.writeResponse(500, EnhancedCode{5, 5, 4}, "Malformed AUTH parameter value")""", """			value, err = decodeXtext(value)
+			if err != nil || value == "" {
+				c.writeResponse(500, EnhancedCode{5, 5, 4}, "Malformed AUTH parameter value")""", "opts.Auth points at the range variable")
+
 json.dump(S, open(os.path.join(os.path.dirname(os.path.abspath(__file__)), "bank.json"), "w"), indent=1)
 print(len(S), "seeds")
